@@ -9,7 +9,7 @@ from lib import esc, unesc
 
 THEOREMS = ['C03.C03_kept_iff', 'C03.C03_marker_gone', 'C03.C03_unguarded_unchanged', 'C03.C03_spec_append',
             'C03.C03_inline_present', 'C03.C03_para_present', 'C03.C03_target_table', 'C03.C03_refines_inline_partial',
-            'C03.C03_model_line_by_line']
+            'C03.C03_model_line_by_line', 'C03.C03_refines_partial']
 TARGETS = [(d, a, v) for d in lib.DISTS for (a, v) in lib.ABIVERS]
 WORDS = ['arch', 'debian', 'ubuntu', 'opensuse', 'whonix', 'apt', 'pacman', 'zypper', 'abi3', 'abi4', 'apparmor3.0',
          'apparmor4.0', 'apparmor4.1', 'apparmor4', 'fedora', 'abi', 'apparmor4x1']
@@ -102,6 +102,13 @@ def run(ctx):
         d, a, v = rng.choice(TARGETS)
         ops.append('%s\t%d\t%s\t%s' % (d, a, v, esc(t)))
         meta.append(('gen', t, (d, a, v)))
+    # fixed defect, replayed on every run: the paragraph pattern was built from the unquoted marker text (a dot matched any
+    # character, a parenthesis made the regexp panic)
+    for wt, tgt in [("profile p {\n  #aa:exclude apparmor4.1\n  /a r,\n\n  #aa:exclude apparmor4x1\n  /b r,\n\n  /c r,\n}\n", ('arch', 4, '4.1')),
+                    ("profile p {\n  #aa:only debian (legacy.) [x]\n  /a r,\n\n  /c r,\n}\n", ('arch', 4, '4.1')),
+                    ("profile p {\n  #aa:only apparmor4.1\n  /a r,\n\n  #aa:only apparmor4x1\n  /b r,\n\n  /c r,\n}\n", ('debian', 3, '3.0'))]:
+        ops.append('%s\t%d\t%s\t%s' % (tgt[0], tgt[1], tgt[2], esc(wt)))
+        meta.append(('gen', wt, tgt))
     ship = shipped()
     tg = TARGETS if ctx.tier == 'thorough' else [TARGETS[(ctx.seed + i) % len(TARGETS)] for i in range(6)] + [('arch', 4, '4.1'), ('debian', 3, '3.0'), ('opensuse', 4, '4.0'), ('ubuntu', 4, '4.0'), ('whonix', 3, '3.0')]     # every distribution at least once
     for name, t in ship:
@@ -125,10 +132,10 @@ def run(ctx):
     nwf = nfail = nknown = nproved = 0
     proved_files = set()
     for i, s in enumerate(sp):
-        wf, spec, inl = s.split('\t')
+        wf, spec, inl, wft = s.split('\t')
         name, t, tgt = meta[i]
-        if inl == '1' and '#aa:' in t:
-            # the text lies in the class for which model = specification is a theorem (C03_refines_inline_partial)
+        if wft == '1' and '#aa:' in t:
+            # the text lies in the class for which model = specification is a theorem (C03_refines_partial)
             nproved += 1
             if name != 'gen':
                 proved_files.add(name)
@@ -164,7 +171,7 @@ def run(ctx):
         ctx.violation('obligation or correspondence broken: ' + '; '.join(broken)[:600], {'broken': broken}, concrete=False)
     ctx.cov['broken'] += broken
     ctx.assumptions += ['dbus/exec/stack directives in shipped files are neutralised for this check (C07 covers them)',
-                        'refinement model = spec is a theorem for the inline form (any number of directives, C03_refines_inline_partial); for guarded paragraphs it is validated by evaluation, not proved']
+                        'refinement model = spec is a theorem on the layouts of Filter.wfText (C03_refines_partial); outside it (a marker text inside another line, a paragraph not closed by a blank line) it is validated by evaluation']
 
 
 def replay(ctx, data):
